@@ -299,3 +299,108 @@ Example C07_refuted_path_param_string :
   inh [fl_num] fl_num (YRef (s "NumReq")) (JObj [(s "num", JStr (s "12"))]) = false /\
   inh [fl_num] fl_num (YRef (s "NumReq")) (JObj [(s "num", JNum 12)]) = true.
 Proof. vm_compute. repeat split; reflexivity. Qed.
+From SebufProofs Require TsTypesCodecs.
+
+(* ---- D. ANNOTATED top-level messages: the JSON the Go server sends (Codec.encode) for a message whose MarshalJSON
+   is one of the field codecs inhabits the declared interface, for every well-typed value outside defects_C07.
+     e                  : the declarations (TsTypesCodecs.env_okp: every message with a standard interface and every
+                          enum declared as the generators declare it; implied by env_ok; = env_of (ts_decls ..) in
+                          TsTypesCodecs.tsx_env_real)
+     top_field_ok       : no field of the message is an unwrap field or carries enum_encoding = NUMBER
+     ProtoJsonFacts.wt  : the value is well-typed in the sense of C04 / C05
+     top_entry_ok c     : every field value is a singular Timestamp, or a value of the plain fragment of part A
+                          (TsTypesFacts.wt with fuel c: fully populated, un-annotated children)
+     c, d               : fuel of the children's typing, fuel to spare; inhabit_fuel = 64 = 4 + c + d --------------- *)
+Theorem C07_response_inhabits_field_codec : forall E sc fl e tn md ft m j c d,
+  TsTypesCodecs.env_okp sc e ->
+  ProtoJson.lookup_message sc tn = Some md -> Codec.owner_of sc md = Codec.Own ft -> CodecCompose.field_codec_ft ft = true ->
+  forallb TsTypesCodecs.top_field_ok (m_fields md) = true ->
+  ProtoJsonFacts.wt sc (KMessage tn) (FM m) = true ->
+  forallb (fun en => match find_field (m_fields md) (fst en) with
+                     | Some f => TsTypesCodecs.top_entry_ok c sc f (snd en)
+                     | None => false end) m = true ->
+  defects_C07 sc fl (s "inh-response") tn [] m = [] ->
+  Codec.encode E sc tn m = CodecText.ROk j ->
+  inhabits (S (S (S (S (c + d))))) e (YRef (last_seg tn)) j = true.
+Proof. exact TsTypesCodecs.field_codec_response_inhabits. Qed.
+Print Assumptions C07_response_inhabits_field_codec.
+
+Theorem C07_response_inhabits_nullable : forall E sc fl e tn md m j c d,
+  TsTypesCodecs.env_okp sc e ->
+  ProtoJson.lookup_message sc tn = Some md -> Codec.owner_of sc md = Codec.Own Codec.FtNullable ->
+  forallb TsTypesCodecs.top_field_ok (m_fields md) = true ->
+  ProtoJsonFacts.wt sc (KMessage tn) (FM m) = true ->
+  forallb (fun en => match find_field (m_fields md) (fst en) with
+                     | Some f => TsTypesCodecs.top_entry_ok c sc f (snd en)
+                     | None => false end) m = true ->
+  defects_C07 sc fl (s "inh-response") tn [] m = [] ->
+  Codec.encode E sc tn m = CodecText.ROk j ->
+  inhabits (S (S (S (S (c + d))))) e (YRef (last_seg tn)) j = true.
+Proof. exact TsTypesCodecs.response_inhabits_nullable. Qed.
+Print Assumptions C07_response_inhabits_nullable.
+
+Theorem C07_response_inhabits_int64 : forall E sc fl e tn md m j c d,
+  TsTypesCodecs.env_okp sc e ->
+  ProtoJson.lookup_message sc tn = Some md -> Codec.owner_of sc md = Codec.Own Codec.FtInt64 ->
+  forallb TsTypesCodecs.top_field_ok (m_fields md) = true ->
+  ProtoJsonFacts.wt sc (KMessage tn) (FM m) = true ->
+  forallb (fun en => match find_field (m_fields md) (fst en) with
+                     | Some f => TsTypesCodecs.top_entry_ok c sc f (snd en)
+                     | None => false end) m = true ->
+  defects_C07 sc fl (s "inh-response") tn [] m = [] ->
+  Codec.encode E sc tn m = CodecText.ROk j ->
+  inhabits (S (S (S (S (c + d))))) e (YRef (last_seg tn)) j = true.
+Proof. exact TsTypesCodecs.response_inhabits_int64. Qed.
+Print Assumptions C07_response_inhabits_int64.
+
+Theorem C07_response_inhabits_bytes : forall E sc fl e tn md m j c d,
+  TsTypesCodecs.env_okp sc e ->
+  ProtoJson.lookup_message sc tn = Some md -> Codec.owner_of sc md = Codec.Own Codec.FtBytes ->
+  forallb TsTypesCodecs.top_field_ok (m_fields md) = true ->
+  ProtoJsonFacts.wt sc (KMessage tn) (FM m) = true ->
+  forallb (fun en => match find_field (m_fields md) (fst en) with
+                     | Some f => TsTypesCodecs.top_entry_ok c sc f (snd en)
+                     | None => false end) m = true ->
+  defects_C07 sc fl (s "inh-response") tn [] m = [] ->
+  Codec.encode E sc tn m = CodecText.ROk j ->
+  inhabits (S (S (S (S (c + d))))) e (YRef (last_seg tn)) j = true.
+Proof. exact TsTypesCodecs.response_inhabits_bytes. Qed.
+Print Assumptions C07_response_inhabits_bytes.
+
+Theorem C07_response_inhabits_timestamp : forall E sc fl e tn md m j c d,
+  TsTypesCodecs.env_okp sc e ->
+  ProtoJson.lookup_message sc tn = Some md -> Codec.owner_of sc md = Codec.Own Codec.FtTs ->
+  forallb TsTypesCodecs.top_field_ok (m_fields md) = true ->
+  ProtoJsonFacts.wt sc (KMessage tn) (FM m) = true ->
+  forallb (fun en => match find_field (m_fields md) (fst en) with
+                     | Some f => TsTypesCodecs.top_entry_ok c sc f (snd en)
+                     | None => false end) m = true ->
+  defects_C07 sc fl (s "inh-response") tn [] m = [] ->
+  Codec.encode E sc tn m = CodecText.ROk j ->
+  inhabits (S (S (S (S (c + d))))) e (YRef (last_seg tn)) j = true.
+Proof. exact TsTypesCodecs.response_inhabits_timestamp. Qed.
+Print Assumptions C07_response_inhabits_timestamp.
+
+Theorem C07_response_inhabits_empty : forall E sc fl e tn md m j c d,
+  TsTypesCodecs.env_okp sc e ->
+  ProtoJson.lookup_message sc tn = Some md -> Codec.owner_of sc md = Codec.Own Codec.FtEmpty ->
+  forallb TsTypesCodecs.top_field_ok (m_fields md) = true ->
+  ProtoJsonFacts.wt sc (KMessage tn) (FM m) = true ->
+  forallb (fun en => match find_field (m_fields md) (fst en) with
+                     | Some f => TsTypesCodecs.top_entry_ok c sc f (snd en)
+                     | None => false end) m = true ->
+  defects_C07 sc fl (s "inh-response") tn [] m = [] ->
+  Codec.encode E sc tn m = CodecText.ROk j ->
+  inhabits (S (S (S (S (c + d))))) e (YRef (last_seg tn)) j = true.
+Proof. exact TsTypesCodecs.response_inhabits_empty. Qed.
+Print Assumptions C07_response_inhabits_empty.
+
+(* the protojson form of a child (what the parent's encoder writes), with fuel to spare *)
+Theorem C07_protojson_value_inhabits : forall E sc e, TsTypesCodecs.env_okp sc e -> forall f d k v j,
+  wt f sc k v = true -> ProtoJson.pj_fval E sc k v = CodecText.ROk j -> inhabits (S (S (f + d))) e (vty k v) j = true.
+Proof. exact TsTypesCodecs.pj_fval_inhabits. Qed.
+Print Assumptions C07_protojson_value_inhabits.
+
+Theorem C07_env_ok_okp : forall sc e, env_ok sc e -> TsTypesCodecs.env_okp sc e.
+Proof. exact TsTypesCodecs.env_ok_okp. Qed.
+Print Assumptions C07_env_ok_okp.
